@@ -161,6 +161,7 @@ def correspondence(ctx, V):
             for pl in ipred:
                 t = pl.split()
                 # P pred key value bound
+                val = None
                 try:
                     val, bound = float(t[3]), float(t[4])
                     okp = val <= bound
@@ -170,7 +171,8 @@ def correspondence(ctx, V):
                     predfail += 1
                     bad_known_or_not.append(t[2])
                     V.violation("impl", "implementation violates predicate %s on a concrete input (value %s > bound %s)" % (t[1], t[3], t[4]),
-                                key=t[2], replay=dict(input=iin, impl_output=iout, model_output=mout, predicate=pl, mode=m, seed=seed))
+                                key=t[2], replay=dict(input=iin, impl_output=iout, model_output=mout, predicate=pl, mode=m, seed=seed),
+                                value=val)
             if iin != min_:
                 V.violation("corr", "driver/harness input echo differs", found_input=False); break
             okrec = len(iout) == len(mout)
